@@ -74,8 +74,10 @@ Mismatch == [smode : {"gm"}, ckind : {"tls"}, csuites : {<<"RSA_AES128_GCM">>}, 
              auth : {"none"}, ccert : {"none"}, source : {"static"}, tickets : {TRUE}]
 \* certificate sources as documented: the GMSSL-only server takes static dual certificates, the auto-switch
 \* server is built by NewBasicAutoSwitchConfig (GetCertificate + GetKECertificate callbacks), the TLS server both
+\* (an auto-switch server configured by hand with the static certificate pair can only serve GMSSL clients: the
+\* static list has one slot for the signing certificate; that half is part of the table)
 Valid(x) == /\ (x.smode = "gm" => x.source = "static")
-            /\ (x.smode = "auto" => x.source = "callbacks")
+            /\ (x.smode = "auto" => (x.source = "callbacks" \/ x.ckind = "gm"))
 Configs == {x \in GMConfigs \cup TLSConfigs \cup Mismatch : Valid(x)}
 
 \* Interoperability with an independent TLS 1.0-1.2 implementation (the Go standard library crypto/tls):
